@@ -416,6 +416,13 @@ def r8_names_written_in_a_readable_form(ck, hdr):
                     forcing = [c for c in range(256) if seqmodel.eval_pure(cl, [0, c])]
                 except seqmodel.Unsupported:
                     continue
+                # the test is made on every path that ends in the plain form (no shortcut around it, e.g. for borrowed names)
+                pred_bbs = [b2 for b2, t2 in host.calls() if (callee_of(t2).get("path") or "").split("::")[-1] == last and len(t2["args"]) == 2 and
+                            isinstance(df.operand_expr(host, t2["args"][1]), tuple) and df.operand_expr(host, t2["args"][1])[:2] == ("closure", cl.id)]
+                from .. import pathconst
+                if host is fn and pred_bbs and bb in pathconst.reach_under(host, lambda e_: None, blocked=set(pred_bbs)):
+                    detail = "the plain form can be reached without the test of the name's bytes (a path goes round it)"
+                    continue
                 missing = [c for c in ws if (c in forcing) != (last in ("any", "position", "find"))]
                 if not missing:
                     good = True
